@@ -241,6 +241,7 @@ func (x *Explorer) atLoopHead(st *State, f *Frame, li *LoopInfo) {
 		// arrival over a back edge: preservation, then the path ends
 		if !st.dry {
 			env := x.specEnv(st, f, f.contract)
+			env.iterHeap, env.iterCells = al.iterHeap, al.iterCells
 			for _, cl := range invs {
 				env.goal = true
 				g := env.evalBool(cl.Expr)
@@ -349,6 +350,11 @@ func (x *Explorer) atLoopHead(st *State, f *Frame, li *LoopInfo) {
 		st.assume(env.evalBool(cl.Expr))
 	}
 	al := &activeLoop{info: li, written: W}
+	al.iterHeap = copyHeap(st.heap)
+	al.iterCells = map[*ssa.Alloc]Val{}
+	for k, v := range f.cells {
+		al.iterCells[k] = v
+	}
 	if f.contract != nil {
 		if dec := f.contract.LoopDec[li.Ord]; dec != nil {
 			al.dec0 = env.evalInt(dec.Expr)
